@@ -54,6 +54,9 @@ def generate(rng, tier):
     # several processors in one program, each with its own clock
     for _ in range(n // 4):
         yield gen_coro.gen_two_clocks(rng, tier)
+    # frames that add up to a hair less than the wait (units of 2**-30 s): "never earlier" has no tolerance
+    for _ in range(n // 6):
+        yield gen_coro.gen_near_miss(rng, tier)
     for _ in range(n // 8):
         yield gen_coro.retype(rng, gen_coro.with_decoy(rng, gen_coro.gen_same_wait(rng, tier),
                                                         gen_coro.gen_raise(rng, tier)), 0.3)
